@@ -31,7 +31,8 @@ def run(ctx, report):
     report.section("order", order, ctx, report, folder)
     report.section("exception freedom", nothrow, ctx, report, folder)
     report.section("own output markers", markers, ctx, report, folder)
-    report.not_decided.append("that the detected reader then reads the document")
+    report.not_decided.append("that the detected reader then reads the document, for the DFXP and SAMI writers (third-party "
+                              "parser); the SRT, WebVTT, MicroDVD and SCC writer/reader pairs are folded back to back")
     report.assume("a non-empty str has at least one line under str.splitlines()")
     report.assume("bs4 prettify keeps the closing </tt> / the <sami> root of the skeleton it was given")
 
@@ -349,6 +350,7 @@ def markers(ctx, report, folder):
             hit = [d[:60] for d in documents[w] if sn.accepts(earlier, d) is True]
             report.check(not hit, "R-MARKER-EXCLUSION", site,
                          f"{earlier}.detect (probed earlier) does not accept {w}'s skeleton", {"accepted": hit} if hit else None, "3")
+    c20_fold.own_output(ctx, report, sn)
     report.check(srt_index == 1, "R-MARKER", srt, "SRT output starts with the index line '1' followed by an arrow line",
                  {"first_index": srt_index}, "3")
     # MicroDVD: language of a written line <= sniffer
